@@ -3,17 +3,19 @@
 
   (A) Property C18. Every URI accepted by `parseURI b {}` (len(b) ≤ 65,535; sip:, sips: and tel:) satisfies the
       hypothesis of the AdjustOffs theorems: `ULWF u len(b)` has field for field the content of `Sipsp.C18.WF`
-      (`ul_parsed_wf`; `ULGood` adds: scheme at 0, sum of lengths ≤ len(b), absent components are zero). Composed:
+      (`ul_parsed_wf`; `ULGood` adds: scheme at 0, computed length = len(b), sum of lengths ≤ len(b), absent
+      components are zero). Composed, for ALL three schemes:
+        * `ul_parsed_len` : the URI length AdjustOffs computes (furthest end of a present component) is exactly len(b);
         * `ul_relocate_parsed` : parse, then AdjustOffs onto ANY span with `Len ≥ len(b)` inside the 16-bit range:
           result true, no panic, type and port number kept, and in any buffer `b2` holding the same text at the new
           offset (`ULHolds`) `Get` on every one of the seven relocated fields returns the same bytes as `Get` on the
           original field in `b` (`ULSame`; neither panics);
-        * `ul_refuse_sip` : sip: / sips:, ANY span with `Len < len(b)`: result false, URI unchanged, no panic
-          (`ul_parsed_len_sip`: the length AdjustOffs computes is exactly len(b));
-        * `ul_refuse_tel` : the same for tel: under the hypothesis "no password, or port / parameters / headers present";
-        * `ul_views_sip` : Long / Short / Flat / Truncate of a parsed sip: / sips: URI (do not panic, start at the
+        * `ul_refuse` : ANY span with `Len < len(b)`: result false, URI unchanged, no panic;
+        * `ul_views_sip` / `ul_views_tel` : Long / Short / Flat / Truncate of a parsed URI (do not panic, start at the
           scheme, scheme < Short ≤ Long ≤ len(b), readable, the short view is a prefix of the long view, Long after
-          Truncate = Short, Long = Flat = whole input when no trailing component is present-but-empty).
+          Truncate = Short, Long = Flat = whole input when no trailing component is present-but-empty); for tel: the
+          number (reported as user, possibly BEHIND a reported password: `tel:a:b@c`) takes the place of the host;
+          `ul_short_prefix_long` : the scheme-independent summary.
   (B) Property C10, run level for the URI port: `ul_port_exact` — for every accepted URI the bytes of the reported port
       field are digits, `PortNo` is exactly their decimal value and `PortNo ≤ 65535`; `ul_port_zero`, `ul_port_numdone`
       (`NumDone`, as for Content-Length / CSeq), `ul_port_meaning` (with `Get`). Loop invariant `ULPInv` on top of `UInv`:
@@ -26,15 +28,13 @@
 
   FINAL THEOREMS (for re-export) carry `EXPORT C18` / `EXPORT C10` in their doc comment.
 
-  What is NOT proved because it does NOT HOLD (tests at the end of part (A); both reproduced with the Go code):
-    * tel: URIs with a password and nothing after the number, e.g. `tel:a:b@c` (user {8,1}, password {6,1}):
-      AdjustOffs ACCEPTS spans of 7 and 8 bytes although the URI has 9 (for tel: the user — the host handed out as
-      user — lies behind the password, and both the length computation and the final check take the password as the
-      last component); the user then ends outside the span. Hence the hypothesis of `ul_refuse_tel`.
-    * for the same input Long() = [0,7) and Short() = [0,9): the short view is not a prefix of the long view; the
-      view theorems are stated for sip: / sips: only.
-  Not attempted: views of tel: URIs without password; `Flat` when a trailing component is present but empty (then
-  the long view stops before the dangling delimiter, see the `sip:h:` test).
+  History: an earlier version of the model (and of the Go code) took the LAST LISTED present component as the end of
+  the URI; for `tel:a:b@c` (number behind the password) AdjustOffs then accepted spans of 7 and 8 bytes for a 9-byte
+  URI and Long() = [0,7) was shorter than Short() = [0,9). Found while proving this file, repaired in the Go code
+  (furthest end; Long prefers the user when it ends behind the password); the tests at the end of part (A) pin the
+  repaired behaviour and the theorems now cover tel: without extra hypotheses.
+  NOT proved: nothing is claimed about `Flat` when a trailing component is present but empty beyond "Long stops before
+  the dangling delimiter" (see the `sip:h:` test).
 -/
 import Sipsp.Proofs.UriSpec
 import Sipsp.Proofs.NumRun
@@ -620,21 +620,186 @@ theorem ul_views_sip (b : Buf) (hfit : b.size ≤ 65535) (hacc : (parseURI b {})
   rw [hsl]
   exact hv
 
+/-! ### the views of a parsed tel: URI (no host; the number is reported as user, possibly behind a password) -/
+
+/-- tel: — end of the last non-empty component from the number (user) on -/
+def ulTelLastEnd (u : PsipURI) : Nat :=
+  if u.headers.len > 0 then u.headers.offs + u.headers.len
+  else if u.params.len > 0 then u.params.offs + u.params.len
+  else if u.port.len > 0 then u.port.offs + u.port.len
+  else u.user.offs + u.user.len
+
+/-- tel: — end of the port if it is not empty, else of the number (user) -/
+def ulTelShortEnd (u : PsipURI) : Nat :=
+  if u.port.len > 0 then u.port.offs + u.port.len else u.user.offs + u.user.len
+
+/-- Long() of a URI without host whose user is not empty and ends behind the password -/
+theorem ul_long_nohost (u : PsipURI) (hs : u.scheme.offs = 0) (hh : u.host.len = 0) (hu : 0 < u.user.len)
+    (b1 : u.user.offs + u.user.len ≤ 65535) (b2 : u.pass.offs + u.pass.len ≤ 65535)
+    (b4 : u.port.offs + u.port.len ≤ 65535) (b5 : u.params.offs + u.params.len ≤ 65535)
+    (b6 : u.headers.offs + u.headers.len ≤ 65535)
+    (hp : u.pass.len > 0 → u.pass.offs + u.pass.len < u.user.offs + u.user.len) :
+    u.long = (⟨0, ulTelLastEnd u⟩, false) := by
+  unfold PsipURI.long ulTelLastEnd
+  by_cases c1 : u.headers.len > 0
+  · rw [if_pos c1, if_pos c1, ul_setFrom u _ hs b6]
+  rw [if_neg c1, if_neg c1]
+  by_cases c2 : u.params.len > 0
+  · rw [if_pos c2, if_pos c2, ul_setFrom u _ hs b5]
+  rw [if_neg c2, if_neg c2]
+  by_cases c3 : u.port.len > 0
+  · rw [if_pos c3, if_pos c3, ul_setFrom u _ hs b4]
+  rw [if_neg c3, if_neg c3, if_neg (by omega)]
+  by_cases c5 : u.pass.len > 0
+  · have hlt := hp c5
+    have e1 : u.user.endT = u.user.offs + u.user.len := trunc16_of_lt (by omega)
+    have e2 : u.pass.endT = u.pass.offs + u.pass.len := trunc16_of_lt (by omega)
+    have hc : (decide (u.user.len > 0) && decide (u.user.endT > u.pass.endT)) = true := by
+      rw [e1, e2]
+      simp only [Bool.and_eq_true, decide_eq_true_eq]
+      exact ⟨hu, hlt⟩
+    rw [if_pos c5, if_pos hc, ul_setFrom u _ hs b1]
+  · rw [if_neg c5, if_pos hu, ul_setFrom u _ hs b1]
+
+theorem ul_short_nohost (u : PsipURI) (hs : u.scheme.offs = 0) (hh : u.host.len = 0) (hu : 0 < u.user.len)
+    (b1 : u.user.offs + u.user.len ≤ 65535) (b4 : u.port.offs + u.port.len ≤ 65535) :
+    u.short = (⟨0, ulTelShortEnd u⟩, false) := by
+  unfold PsipURI.short ulTelShortEnd
+  by_cases c3 : u.port.len > 0
+  · rw [if_pos c3, if_pos c3, ul_setFrom u _ hs b4]
+  rw [if_neg c3, if_neg c3, if_neg (by omega), if_pos hu, ul_setFrom u _ hs b1]
+
+/-- the views of the tel: report of a laid-out URI -/
+theorem ul_tel_views {b : Buf} {u0 : PsipURI} (h : URILayout b 4 u0) (hfit : b.size ≤ 65535) :
+    (telSwap u0).long = (⟨0, ulTelLastEnd (telSwap u0)⟩, false) ∧
+    (telSwap u0).short = (⟨0, ulTelShortEnd (telSwap u0)⟩, false) ∧
+    4 < ulTelShortEnd (telSwap u0) ∧
+    (telSwap u0).user.offs + (telSwap u0).user.len ≤ ulTelShortEnd (telSwap u0) ∧
+    ulTelShortEnd (telSwap u0) ≤ ulTelLastEnd (telSwap u0) ∧ ulTelLastEnd (telSwap u0) ≤ b.size ∧
+    PField.get? b (telSwap u0).long.1 = some (b.extract 0 (ulTelLastEnd (telSwap u0))) ∧
+    PField.get? b (telSwap u0).short.1 = some (b.extract 0 (ulTelShortEnd (telSwap u0))) ∧
+    (b.extract 0 (ulTelLastEnd (telSwap u0))).extract 0 (ulTelShortEnd (telSwap u0)) =
+      b.extract 0 (ulTelShortEnd (telSwap u0)) ∧
+    (telSwap u0).truncate.long = (telSwap u0).short ∧
+    ((∀ f ∈ [(telSwap u0).port, (telSwap u0).params, (telSwap u0).headers], f.offs ≠ 0 → 0 < f.len) →
+      ulTelLastEnd (telSwap u0) = b.size ∧ (telSwap u0).flat b = some b) := by
+  obtain ⟨hkb, hho, b1, b2, b3, b4, b5, b6, _⟩ := h.ul_bounds (by omega)
+  obtain ⟨hsch, hhl, hu, q1, q2, _, _, _, a1, a2, a3⟩ := h.ul_facts
+  have hs : (telSwap u0).scheme.offs = 0 := by show u0.scheme.offs = 0; rw [hsch]
+  have hpp : (telSwap u0).pass.len > 0 →
+      (telSwap u0).pass.offs + (telSwap u0).pass.len < (telSwap u0).user.offs + (telSwap u0).user.len := by
+    show u0.pass.len > 0 → u0.pass.offs + u0.pass.len < u0.host.offs + u0.host.len
+    omega
+  have hL : (telSwap u0).long = (⟨0, ulTelLastEnd (telSwap u0)⟩, false) :=
+    ul_long_nohost (telSwap u0) hs rfl hhl (show u0.host.offs + u0.host.len ≤ 65535 by omega)
+      (show u0.pass.offs + u0.pass.len ≤ 65535 by omega) (show u0.port.offs + u0.port.len ≤ 65535 by omega)
+      (show u0.params.offs + u0.params.len ≤ 65535 by omega)
+      (show u0.headers.offs + u0.headers.len ≤ 65535 by omega) hpp
+  have hS : (telSwap u0).short = (⟨0, ulTelShortEnd (telSwap u0)⟩, false) :=
+    ul_short_nohost (telSwap u0) hs rfl hhl (show u0.host.offs + u0.host.len ≤ 65535 by omega)
+      (show u0.port.offs + u0.port.len ≤ 65535 by omega)
+  have eE : ulTelLastEnd (telSwap u0) = ulLastEnd u0 := rfl
+  have eS : ulTelShortEnd (telSwap u0) = ulShortEnd u0 := rfl
+  obtain ⟨e0, e1, e2, e3, e4⟩ := h.ul_ends (by omega)
+  rw [← eE, ← eS] at e2
+  rw [← eS] at e0 e1
+  rw [← eE] at e3 e4
+  have gL : PField.get? b ⟨0, ulTelLastEnd (telSwap u0)⟩ = some (b.extract 0 (ulTelLastEnd (telSwap u0))) := by
+    have := field_get? b 0 (ulTelLastEnd (telSwap u0)) (by omega) hfit
+    rw [Nat.zero_add] at this
+    exact this
+  have gS : PField.get? b ⟨0, ulTelShortEnd (telSwap u0)⟩ = some (b.extract 0 (ulTelShortEnd (telSwap u0))) := by
+    have := field_get? b 0 (ulTelShortEnd (telSwap u0)) (by omega) hfit
+    rw [Nat.zero_add] at this
+    exact this
+  refine ⟨hL, hS, e0, e1, e2, e3, by rw [hL]; exact gL, by rw [hS]; exact gS, ?_, ?_, ?_⟩
+  · rw [Array.extract_extract]
+    congr 1
+    omega
+  · have hT : (telSwap u0).truncate.long = (⟨0, ulTelLastEnd (telSwap u0).truncate⟩, false) :=
+      ul_long_nohost (telSwap u0).truncate hs rfl hhl (show u0.host.offs + u0.host.len ≤ 65535 by omega)
+        (show u0.pass.offs + u0.pass.len ≤ 65535 by omega) (show u0.port.offs + u0.port.len ≤ 65535 by omega)
+        (show (0 : Nat) + 0 ≤ 65535 by omega) (show (0 : Nat) + 0 ≤ 65535 by omega) hpp
+    rw [hT, hS]
+    rfl
+  · intro hne
+    have hE := e4 hne
+    refine ⟨hE, ?_⟩
+    unfold PsipURI.flat
+    rw [hL]
+    simp only [Bool.false_eq_true, ↓reduceIte]
+    rw [gL, hE, Array.extract_size]
+
+/-- EXPORT C18 — **views of a parsed tel: URI**: as `ul_views_sip`, with the number (reported as user) in the place of
+    the host: Long and Short do not panic and start at the scheme; Short ends at the port (if not empty, else at the
+    number), Long at the last non-empty component, scheme < Short ≤ Long ≤ len(b), both readable, the short view is
+    a prefix of the long view, Long after Truncate is Short, and Long = Flat = whole input when no trailing component
+    is present-but-empty. Holds also when a password precedes the number (`tel:a:b@c`). -/
+theorem ul_views_tel (b : Buf) (hfit : b.size ≤ 65535) (hacc : (parseURI b {}).1 = .none)
+    (htel : (parseURI b {}).2.2.1.uriType = TELuri) :
+    (parseURI b {}).2.2.1.long = (⟨0, ulTelLastEnd (parseURI b {}).2.2.1⟩, false) ∧
+    (parseURI b {}).2.2.1.short = (⟨0, ulTelShortEnd (parseURI b {}).2.2.1⟩, false) ∧
+    (parseURI b {}).2.2.1.scheme.len < ulTelShortEnd (parseURI b {}).2.2.1 ∧
+    (parseURI b {}).2.2.1.user.offs + (parseURI b {}).2.2.1.user.len ≤ ulTelShortEnd (parseURI b {}).2.2.1 ∧
+    ulTelShortEnd (parseURI b {}).2.2.1 ≤ ulTelLastEnd (parseURI b {}).2.2.1 ∧
+    ulTelLastEnd (parseURI b {}).2.2.1 ≤ b.size ∧
+    PField.get? b (parseURI b {}).2.2.1.long.1 = some (b.extract 0 (ulTelLastEnd (parseURI b {}).2.2.1)) ∧
+    PField.get? b (parseURI b {}).2.2.1.short.1 = some (b.extract 0 (ulTelShortEnd (parseURI b {}).2.2.1)) ∧
+    (b.extract 0 (ulTelLastEnd (parseURI b {}).2.2.1)).extract 0 (ulTelShortEnd (parseURI b {}).2.2.1) =
+      b.extract 0 (ulTelShortEnd (parseURI b {}).2.2.1) ∧
+    (parseURI b {}).2.2.1.truncate.long = (parseURI b {}).2.2.1.short ∧
+    ((∀ f ∈ [(parseURI b {}).2.2.1.port, (parseURI b {}).2.2.1.params, (parseURI b {}).2.2.1.headers],
+        f.offs ≠ 0 → 0 < f.len) →
+      ulTelLastEnd (parseURI b {}).2.2.1 = b.size ∧ (parseURI b {}).2.2.1.flat b = some b) := by
+  obtain ⟨_, t, k, u0, hk, hl, hty, hu⟩ := (parseURI_ok b hfit).2.2 hacc
+  have ht : t = TELuri := by
+    rcases hk with ⟨rfl, _, _⟩ | ⟨rfl, _, _⟩ | ⟨rfl, _, _⟩
+    · rw [hu, if_neg (by decide)] at htel
+      exact hty.symm.trans htel
+    · rfl
+    · rw [hu, if_neg (by decide)] at htel
+      exact hty.symm.trans htel
+  have hk4 : k = 4 := by
+    rcases hk with ⟨_, rfl, _⟩ | ⟨_, rfl, _⟩ | ⟨rfl, _, _⟩
+    · rfl
+    · rfl
+    · exact absurd ht (by decide)
+  subst hk4
+  rw [hu, if_pos ht]
+  have hsl : (telSwap u0).scheme.len = 4 := by show u0.scheme.len = 4; rw [hl.1]
+  rw [hsl]
+  exact ul_tel_views hl hfit
+
+/-- EXPORT C18 — all schemes: **the short view is a prefix of the long view** and both are prefixes of the input:
+    neither panics, both start at offset 0 (the scheme), `Short.Len ≤ Long.Len ≤ len(b)` -/
+theorem ul_short_prefix_long (b : Buf) (hfit : b.size ≤ 65535) (hacc : (parseURI b {}).1 = .none) :
+    (parseURI b {}).2.2.1.long.2 = false ∧ (parseURI b {}).2.2.1.short.2 = false ∧
+    (parseURI b {}).2.2.1.long.1.offs = 0 ∧ (parseURI b {}).2.2.1.short.1.offs = 0 ∧
+    (parseURI b {}).2.2.1.short.1.len ≤ (parseURI b {}).2.2.1.long.1.len ∧
+    (parseURI b {}).2.2.1.long.1.len ≤ b.size ∧
+    (parseURI b {}).2.2.1.truncate.long = (parseURI b {}).2.2.1.short := by
+  by_cases htel : (parseURI b {}).2.2.1.uriType = TELuri
+  · obtain ⟨hL, hS, _, _, e2, e3, _, _, _, hT, _⟩ := ul_views_tel b hfit hacc htel
+    rw [hL, hS]
+    exact ⟨rfl, rfl, rfl, rfl, e2, e3, hS ▸ hT⟩
+  · obtain ⟨hL, hS, _, _, e2, e3, _, _, _, hT, _⟩ := ul_views_sip b hfit hacc htel
+    rw [hL, hS]
+    exact ⟨rfl, rfl, rfl, rfl, e2, e3, hS ▸ hT⟩
+
 /-! ### tests / non-vacuity for part (A) (closed computations, `decide +kernel`) -/
 
 -- `ULHolds` is satisfiable: the text "sip:a@b" sits at offset 4 of "To:<sip:a@b>;x"
 example : ULHolds "To:<sip:a@b>;x".toUTF8.data 4 "sip:a@b".toUTF8.data := by
   constructor <;> decide +kernel
--- the hypotheses of `ul_relocate_parsed` / `ul_refuse_sip` are met by "sip:a@b" (7 bytes) and the spans [4,11) / [4,10)
+-- the hypotheses of `ul_relocate_parsed` / `ul_refuse` are met by "sip:a@b" (7 bytes) and the spans [4,11) / [4,10)
 example : ∃ u', (parseURI "sip:a@b".toUTF8.data {}).2.2.1.adjustOffs ⟨4, 7⟩ = (true, u', false) ∧ u'.scheme.offs = 4 :=
   have h := ul_relocate_parsed "sip:a@b".toUTF8.data (by decide +kernel) (by decide +kernel) ⟨4, 7⟩
     (by decide +kernel) (by decide)
   h.imp fun _ hu => ⟨hu.1, hu.2.1⟩
 example : (parseURI "sip:a@b".toUTF8.data {}).2.2.1.adjustOffs ⟨4, 6⟩ =
     (false, (parseURI "sip:a@b".toUTF8.data {}).2.2.1, false) :=
-  ul_refuse_sip "sip:a@b".toUTF8.data (by decide +kernel) (by decide +kernel) (by decide +kernel) ⟨4, 6⟩
-    (by decide +kernel)
--- test: parse "sip:u:p@h:5;a?b", relocate onto [4, 4+15) and onto a longer span
+  ul_refuse "sip:a@b".toUTF8.data (by decide +kernel) (by decide +kernel) ⟨4, 6⟩ (by decide +kernel)
+-- test: parse "sip:u:p@h:5;a?b", relocate onto [4, 4+15)
 example : ((parseURI "sip:u:p@h:5;a?b".toUTF8.data {}).2.2.1.adjustOffs ⟨4, 15⟩) =
     (true, { uriType := SIPuri, scheme := ⟨4, 4⟩, user := ⟨8, 1⟩, pass := ⟨10, 1⟩, host := ⟨12, 1⟩, port := ⟨14, 1⟩,
              params := ⟨16, 1⟩, headers := ⟨18, 1⟩, portNo := 5 }, false) := by decide +kernel
@@ -642,16 +807,24 @@ example : ((parseURI "sip:u:p@h:5;a?b".toUTF8.data {}).2.2.1.adjustOffs ⟨4, 15
 example : ((parseURI "sip:u:p@h:5;a?b".toUTF8.data {}).2.2.1.adjustOffs ⟨4, 14⟩).1 = false := by decide +kernel
 -- test: a present-but-empty port: the long view stops at the host ("sip:h", 5 of 6 bytes)
 example : (parseURI "sip:h:".toUTF8.data {}).2.2.1.long = (⟨0, 5⟩, false) := by decide +kernel
--- why `ul_refuse_tel` has its hypothesis and why the views are stated for sip: / sips: only: "tel:a:b@c" (9 bytes)
--- is accepted with the user (= host) BEHIND the password; a span of 8 bytes is accepted by AdjustOffs and the user
--- then ends at 19 > 10 + 8; Long() is [0,7) but Short() is [0,9)
+-- test: "tel:a:b@c" (9 bytes) is accepted with the user (= the number) BEHIND the password. The furthest end counts:
+-- spans of 8 and 7 bytes are refused, 9 is accepted, and Long() = Short() = [0,9) (this input was the witness of a
+-- defect, repaired in the Go code: 8 and 7 used to be accepted and Long() was [0,7))
 example : (parseURI "tel:a:b@c".toUTF8.data {}).1 = UErr.none ∧
     (parseURI "tel:a:b@c".toUTF8.data {}).2.2.1.user = ⟨8, 1⟩ ∧
     (parseURI "tel:a:b@c".toUTF8.data {}).2.2.1.pass = ⟨6, 1⟩ ∧
-    ((parseURI "tel:a:b@c".toUTF8.data {}).2.2.1.adjustOffs ⟨10, 8⟩).1 = true ∧
-    ((parseURI "tel:a:b@c".toUTF8.data {}).2.2.1.adjustOffs ⟨10, 8⟩).2.1.user = ⟨18, 1⟩ ∧
-    (parseURI "tel:a:b@c".toUTF8.data {}).2.2.1.long = (⟨0, 7⟩, false) ∧
+    ((parseURI "tel:a:b@c".toUTF8.data {}).2.2.1.adjustOffs ⟨10, 8⟩).1 = false ∧
+    ((parseURI "tel:a:b@c".toUTF8.data {}).2.2.1.adjustOffs ⟨10, 7⟩).1 = false ∧
+    ((parseURI "tel:a:b@c".toUTF8.data {}).2.2.1.adjustOffs ⟨10, 9⟩).1 = true ∧
+    ((parseURI "tel:a:b@c".toUTF8.data {}).2.2.1.adjustOffs ⟨10, 9⟩).2.1.user = ⟨18, 1⟩ ∧
+    ((parseURI "tel:a:b@c".toUTF8.data {}).2.2.1.adjustOffs ⟨10, 9⟩).2.1.pass = ⟨16, 1⟩ ∧
+    (parseURI "tel:a:b@c".toUTF8.data {}).2.2.1.long = (⟨0, 9⟩, false) ∧
     (parseURI "tel:a:b@c".toUTF8.data {}).2.2.1.short = (⟨0, 9⟩, false) := by decide +kernel
+-- the hypotheses of `ul_views_tel` / `ul_refuse` are met by that input
+example : (parseURI "tel:a:b@c".toUTF8.data {}).2.2.1.adjustOffs ⟨10, 8⟩ =
+    (false, (parseURI "tel:a:b@c".toUTF8.data {}).2.2.1, false) :=
+  ul_refuse "tel:a:b@c".toUTF8.data (by decide +kernel) (by decide +kernel) ⟨10, 8⟩ (by decide +kernel)
+example : (parseURI "tel:a:b@c".toUTF8.data {}).2.2.1.uriType = TELuri := by decide +kernel
 
 /-! ## (B) C10: the port number of an accepted URI is the value of the port field -/
 
